@@ -155,7 +155,9 @@ def judge_grammar(acc, kind, s, n, k, unit, got, raised, srv):
     elif got is None:
         acc.bad(f'{kind}:grammar-string-rejected', s, f'parse_{kind}({s!r}) is None; the string denotes {exp}', kind)
     elif got != exp or type(got) is not int:
-        what = 'exact-value-misparsed' if exact else 'rounding-wrong'
+        # float artefacts are off by at most one unit or a 2**-51 relative error; anything larger is a different kind of mistake
+        small = isinstance(got, (int, float)) and abs(got - exp) * 2**51 <= 2**51 + exp
+        what = ('exact' if exact else 'inexact') + '-value-' + ('off-by-rounding-error' if small else 'wrong')
         rnd = 'down' if kind == 'cpu' else 'up'
         unitname = 'millicores' if kind == 'cpu' else 'bytes'
         detail = (f'which is exactly {exp} {unitname}' if exact else f'which rounds {rnd} to {exp} {unitname}')
